@@ -96,7 +96,7 @@ pub fn worker(check: &str, tier: Tier, seed: u64, shard: usize, nshards: usize) 
             let sql = q.engine_sql();
             for (l, ctx) in &ctxs {
                 for rep in 0..p.reps {
-                    let o = run_sql(ctx, &sql);
+                    let o = crate::eng::run_sql_avoiding_gkr(ctx, &sql, &db, *l == Layout::Parquet);
                     em.emit(&format!("{}/{}/{}/r{}", dbi, qi, lname(*l), rep), &sql, &o, json!({"ordered": !q.keys.is_empty(), "tags": q.tags, "rows": db.iter().map(|t| t.rows.len()).collect::<Vec<_>>()}));
                 }
             }
